@@ -76,6 +76,8 @@ def eval_monad_expand_where(a):
 
     """
     arr = a if is_list(a) else [a]
+    if len(arr) == 0:
+        return bknp.asarray([])
     return bknp.repeat(bknp.arange(len(arr)), arr)
 
 
@@ -272,7 +274,7 @@ def eval_monad_range(a, backend):
     """
     np_backend = backend.np
     if isinstance(a, str):
-        return ''.join(bknp.unique(backend.str_to_chr_arr(a)))
+        return ''.join(dict.fromkeys(a))  # unique characters in order of appearance
     elif np_backend.isarray(a):
         dtype_kind = backend.get_dtype_kind(a)
         if dtype_kind != 'O' and a.ndim > 1:
@@ -330,6 +332,8 @@ def eval_monad_reverse(a, backend):
                               |1  -->  1
 
     """
+    if not is_iterable(a):
+        return a
     if backend.is_backend_array(a):
         np_mod = backend.np
         if hasattr(np_mod, 'flip'):
